@@ -58,11 +58,11 @@ CLAIMS = {
     text="Decides structural conditions of lossless bundling for all element sequences: rtosc_bundle and append_bundle write only under an exact capacity guard whose compared amount equals the amount written; length and time-tag codecs are big-endian; writer, size pre-computation and the four independent walkers step by size+4 for every size; magic bytes and header offsets (0/8/16) agree between writer and every reader; prefix value, copy length and advance are one variable measured from the copied message.",
     note="Trusted: clang AST/-O0 IR, sa/fdeval.py, sa/rules/guard.py. Element sizes are assumed to be multiples of 4. Byte identity of nested elements is not decided.",
     ref="DESIGN.md 2 C08"),
- "C17": dict(cat="other", tech="writer/reader agreement: the metadata iterator (MetaContainer::begin, MetaIterator constructor and operator++, metaiterator_advance) is evaluated finite-domain on its AST over every metadata block the port macros produce (macro expansions read off witness units as string literals with embedded NULs) plus hand-made corner cases, and compared with the pairs the block spells; shape rule for find/operator[]",
-    text="Narrow claim: on every metadata block that the library's own macros produce (23 metadata macros expanded alone, the complete blocks of 41 macro-generated ports) and on hand-made blocks for the corner cases the statement names (values containing ':' and '=', repeated keys, entries without value, empty value, no leading ':'), the iterator yields in order exactly the (key, value) pairs the block spells; find() and operator[] range over the container and answer with the first entry whose key compares equal. Not decided: arbitrary byte strings as keys and values, MetaContainer::length.",
+ "C17": dict(cat="other", tech="writer/reader agreement: the metadata iterator (MetaContainer::begin, MetaIterator constructor and operator++, metaiterator_advance) is evaluated finite-domain on its AST over every metadata block the port macros produce (macro expansions read off witness units as string literals with embedded NULs) plus hand-made corner cases, and compared with the pairs the block spells; MetaContainer::length evaluated on the same blocks for both ways a container is built; shape rule for find/operator[]",
+    text="Narrow claim: on every metadata block that the library's own macros produce (23 metadata macros expanded alone, the complete blocks of 41 macro-generated ports) and on hand-made blocks for the corner cases the statement names (values containing ':' and '=', repeated keys, entries without value, empty value, no leading ':'), the iterator yields in order exactly the (key, value) pairs the block spells; find() and operator[] range over the container and answer with the first entry whose key compares equal; length() reports the block's byte length including its terminator, for a container built on the block as written and behind the stripped ':'. Not decided: arbitrary byte strings as keys and values (keys beginning with ':').",
     note="Trusted: clang AST, sa/fdeval.py, witness/meta_matrix.cpp and witness/sugar_matrix.cpp. The evaluation covers the listed blocks only.",
     ref="DESIGN.md 2 C17"),
- "C15": dict(cat="other", tech="writer/reader agreement on the argument roles of the undo event (AST), finite-domain evaluation of the seek and record bookkeeping over all positions/sizes/distances of a small history (std::deque operations modelled), evaluation of the merge-window test",
+ "C15": dict(cat="other", tech="writer/reader agreement on the argument roles of the undo event (AST), finite-domain evaluation of the seek and record bookkeeping over all positions/sizes/distances of a small history (std::deque operations modelled), token evaluation (symbolic events, entries and ages) of rewind, replay and mergeEvent over 351 small histories",
     text="Narrow claim: rewind/replay/mergeEvent take address, old and new value from the argument positions at which the parameter macros put them (C14 R14d) with the matching single type tag; seekHistory rewinds newest first / replays oldest first exactly the events up to the destination clamped to [0,size]; recordEvent drops the undone tail, appends unless merged, and caps the history at max_history_size (= 20) by dropping the oldest; mergeEvent scans newest first, stops at events more than 2 s old and merges on equal address. Not decided: the values carried over whole histories, the wall-clock behaviour.",
     note="Trusted: clang AST, sa/fdeval.py; std::deque assumed to behave as documented.",
     ref="DESIGN.md 2 C15"),
